@@ -408,7 +408,21 @@ func (sr *storeRun) plantStrays() {
 		dir := filepath.Join(sr.dir, "blobs", "sha256")
 		os.MkdirAll(dir, 0o755)
 		os.WriteFile(filepath.Join(dir, d.Encoded()), data, 0o444)
+		// and a file that is no blob at all; GC has to leave it alone and carry on. Its
+		// name sorts before, between or after the digests.
+		os.WriteFile(filepath.Join(dir, strayNames[i%len(strayNames)]), []byte("not a blob"), 0o644)
 	}
+}
+
+var strayNames = []string{".DS_Store", "8-partial-download", "zz-notes.txt"}
+
+func isStrayName(n string) bool {
+	for _, s := range strayNames {
+		if s == n {
+			return true
+		}
+	}
+	return false
 }
 
 func (sr *storeRun) outcome(res simrt.Result) *Verdict {
@@ -712,6 +726,9 @@ func (sr *storeRun) blobListingDiff() string {
 	for _, alg := range []string{"sha256", "sha512"} {
 		entries, _ := os.ReadDir(filepath.Join(sr.dir, "blobs", alg))
 		for _, e := range entries {
+			if isStrayName(e.Name()) {
+				continue // not content; nobody is asked to remove it
+			}
 			have[e.Name()] = true
 			if alg == "sha512" {
 				sr.info.Probes["sha512_blob_on_disk"]++
